@@ -7,6 +7,7 @@ package go2lean
 import (
 	"fmt"
 	"go/ast"
+	"go/token"
 	"go/types"
 )
 
@@ -92,4 +93,141 @@ func (t *fn) rangeNoValue(x *ast.RangeStmt) bool {
 	}
 	id, ok := x.Value.(*ast.Ident)
 	return ok && id.Name == "_"
+}
+
+// ---------------------------------------------------------------- map[K]struct{} used as a SET (wave 9, C14)
+//
+// A LOCAL variable `m := make(map[K]struct{}[, len(x)])` whose only uses are `m[k] = struct{}{}`,
+// `_, ok := m[k]` and `len(m)` is translated as the list of its distinct keys (newest first):
+// insert = cons unless present, lookup = membership, len = length.  Iteration order, the one thing a
+// list has and a Go map has not, is not observable through these three operations, so the semantics
+// is exact — PROVIDED `==` of the key type is an equivalence that Lean's equality models: ints,
+// fixed-width integers, bools, strings, and type parameters (the translator's standing convention for
+// `comparable` type parameters, as for `v == s[i]`; NOT true of an instantiation with floating-point
+// or interface keys: NaN keys never compare equal, the generated header says so).
+// Every other use of the variable (range, delete, passing it on, copying the reference, returning it,
+// reading the value) stays rejected by the existing rules: its Go type is a map type, which
+// goType refuses wherever an expression, parameter, result or assignment target is typed.
+
+var setVarsOf = map[*fn]map[types.Object]bool{}
+
+func (t *fn) setVar(e ast.Expr) (types.Object, bool) {
+	id, ok := ast.Unparen(e).(*ast.Ident)
+	if !ok {
+		return nil, false
+	}
+	o := t.pkg.info.ObjectOf(id)
+	return o, o != nil && setVarsOf[t][o]
+}
+
+func isEmptyStruct(tt types.Type) bool {
+	s, ok := tt.Underlying().(*types.Struct)
+	return ok && s.NumFields() == 0
+}
+
+// setStmt translates the three statement forms of a set-map; ok = false: x is none of them.
+func (t *fn) setStmt(x *ast.AssignStmt) ([]string, bool) {
+	// m := make(map[K]struct{}[, hint])
+	if x.Tok == token.DEFINE && len(x.Lhs) == 1 && len(x.Rhs) == 1 {
+		ce, isCall := ast.Unparen(x.Rhs[0]).(*ast.CallExpr)
+		if !isCall || !t.isBuiltinCall(ce, "make") {
+			return nil, false
+		}
+		mt, isMap := t.typeOf(ce).Underlying().(*types.Map)
+		if !isMap {
+			return nil, false
+		}
+		if !isEmptyStruct(mt.Elem()) {
+			t.reject(x, "`%s`: only map[K]struct{} used as a set is in the subset", t.text(x))
+		}
+		kt, err := t.goType(mt.Key())
+		if err != nil || !(kt.k == kInt || kt.k == kBV || kt.k == kBool || kt.k == kTParam || (kt.k == kList && kt.str)) {
+			t.reject(x, "`%s`: the key type of a set-map must be an integer, bool, string or type-parameter type", t.text(x))
+		}
+		if len(ce.Args) > 2 {
+			t.reject(x, "`%s`: make of a map with more than a size hint", t.text(x))
+		}
+		if len(ce.Args) == 2 {
+			// the hint has no effect on the semantics (a negative hint does not panic for maps); its
+			// EVALUATION must not panic either: len(<variable>) or a constant
+			h := ast.Unparen(ce.Args[1])
+			okHint := false
+			if tv, has := t.pkg.info.Types[h]; has && tv.Value != nil {
+				okHint = true
+			}
+			if hc, isC := h.(*ast.CallExpr); isC && t.isBuiltinCall(hc, "len") && len(hc.Args) == 1 {
+				if _, isId := ast.Unparen(hc.Args[0]).(*ast.Ident); isId {
+					okHint = true
+				}
+			}
+			if !okHint {
+				t.reject(x, "`%s`: the size hint of a set-map must be a constant or len(<variable>)", t.text(x))
+			}
+		}
+		id, isId := x.Lhs[0].(*ast.Ident)
+		if !isId || id.Name == "_" {
+			t.reject(x, "`%s`: a set-map must be bound to a local variable", t.text(x))
+		}
+		o := t.pkg.info.Defs[id]
+		if o == nil {
+			t.reject(x, "`%s`: a set-map must be a NEW local variable", t.text(x))
+		}
+		if setVarsOf[t] == nil {
+			setVarsOf[t] = map[types.Object]bool{}
+		}
+		setVarsOf[t][o] = true
+		lt := &ty{k: kList, elem: kt}
+		t.funcPar[o] = lt // varTy() consults this table first: the variable's Lean type
+		note := fmt.Sprintf("map `%s` (%s) used as a SET: translated as the list of its distinct keys (insert = cons unless present, lookup = membership, len = length; iteration order is not observable through these); `==` of the key type is taken to be Lean's equality (not true of floating-point or interface keys: NaN)", id.Name, types.TypeString(mt, func(*types.Package) string { return "" }))
+		t.notes = append(t.notes, note)
+		return []string{fmt.Sprintf("let %s : %s := []", t.nameOf(o), lt.lean())}, true
+	}
+	// m[k] = struct{}{}
+	if x.Tok == token.ASSIGN && len(x.Lhs) == 1 && len(x.Rhs) == 1 {
+		ie, isIdx := ast.Unparen(x.Lhs[0]).(*ast.IndexExpr)
+		if !isIdx {
+			return nil, false
+		}
+		o, isSet := t.setVar(ie.X)
+		if !isSet {
+			return nil, false
+		}
+		cl, isLit := ast.Unparen(x.Rhs[0]).(*ast.CompositeLit)
+		if !isLit || len(cl.Elts) != 0 || !isEmptyStruct(t.typeOf(cl)) {
+			t.reject(x, "`%s`: a set-map is written only as m[k] = struct{}{}", t.text(x))
+		}
+		k := t.arg(ie.Index)
+		m := t.nameOf(o)
+		return []string{fmt.Sprintf("let %s : %s := (if %s.contains %s then %s else %s :: %s)", m, t.varTy(o).lean(), m, k, m, k, m)}, true
+	}
+	// _, ok := m[k]   /   _, ok = m[k]
+	if (x.Tok == token.ASSIGN || x.Tok == token.DEFINE) && len(x.Lhs) == 2 && len(x.Rhs) == 1 {
+		ie, isIdx := ast.Unparen(x.Rhs[0]).(*ast.IndexExpr)
+		if !isIdx {
+			return nil, false
+		}
+		o, isSet := t.setVar(ie.X)
+		if !isSet {
+			return nil, false
+		}
+		if id, isId := x.Lhs[0].(*ast.Ident); !isId || id.Name != "_" {
+			t.reject(x, "`%s`: a set-map is read only as _, ok := m[k]", t.text(x))
+		}
+		k := t.arg(ie.Index)
+		return t.assignTo(x.Lhs[1], fmt.Sprintf("(%s.contains %s)", t.nameOf(o), k)), true
+	}
+	return nil, false
+}
+
+// setLen: len(m) of a set-map.
+func (t *fn) setLen(x *ast.CallExpr) (string, bool) {
+	if len(x.Args) != 1 {
+		return "", false
+	}
+	o, isSet := t.setVar(x.Args[0])
+	if !isSet {
+		return "", false
+	}
+	t.noteInt(x)
+	return "(Int.ofNat " + t.nameOf(o) + ".length)", true
 }
